@@ -14,3 +14,4 @@ open Neutrino.Utxo
 #print axioms C10_all_answered_counterexample
 #print axioms C10_lost_counterexample
 #print axioms C10_source_facts
+#print axioms C10_no_spin_partial
